@@ -389,13 +389,26 @@ def run(chk, repo, tier):
                           f'{cname}.to_dict and from_dict disagree on keys', line=c.methods['to_dict'].node.lineno,
                           witness=f'from_dict(to_dict(x)) raises KeyError or drops an attribute of {cname}')
     td = cs.methods['to_dict']
-    idx_bases = {unparse(c.func.value) for c in calls_in(td.node)
+    # the positions the edge endpoints are numbered by (`lst.index(x)` or `pos[x]` with pos = {c: n for n, c in enumerate(..)})
+    # and the sequence that is serialised must enumerate the same iterable in the same order
+    tcfg4 = CFG(td.node)
+    last = max(tcfg4.nodes.values(), key=lambda n_: (n_.line or 0)).id
+
+    def origin_txt(e):
+        o, fl = order_origin(tcfg4, e, last)
+        return unparse(o) + (' ' + ','.join(sorted(fl)) if fl else '')
+    pos_dicts = {a_.targets[0].id for a_ in walk_no_nested(td.node) if isinstance(a_, ast.Assign)
+                 and isinstance(a_.targets[0], ast.Name) and isinstance(a_.value, ast.DictComp)
+                 and isinstance(a_.value.generators[0].iter, ast.Call) and dotted(a_.value.generators[0].iter.func) == 'enumerate'}
+    idx_bases = {origin_txt(c.func.value) for c in calls_in(td.node)
                  if isinstance(c.func, ast.Attribute) and c.func.attr == 'index'}
+    idx_bases |= {origin_txt(n.value) for n in ast.walk(td.node) if isinstance(n, ast.Subscript) and isinstance(n.value, ast.Name)
+                  and n.value.id in pos_dicts and isinstance(n.ctx, ast.Load)}
     ser = set()
     for n in ast.walk(td.node):
         if isinstance(n, (ast.GeneratorExp, ast.ListComp)) and isinstance(n.elt, ast.Call) \
                 and isinstance(n.elt.func, ast.Attribute) and n.elt.func.attr == 'to_dict':
-            ser.add(unparse(n.generators[0].iter))
+            ser.add(origin_txt(n.generators[0].iter) + (' filtered' if n.generators[0].ifs else ''))
     chk.instance(O4, f'CompartmentalSystem.to_dict: edge index base {sorted(idx_bases)}, serialised list {sorted(ser)}')
     if not idx_bases or not ser:
         raise AnalysisError('O4: cannot find the compartment list / index lookups in CompartmentalSystem.to_dict')
@@ -624,17 +637,29 @@ def run_o9_o10(chk, repo):
     if not positional:
         chk.instance(O10, 'central_compartment is order independent: rule not armed')
         return
-    comps_src = [n.value for n in walk_no_nested(td.node) if isinstance(n, ast.Assign) and unparse(n.targets[0]) == 'comps']
-    if len(comps_src) != 1:
-        raise AnalysisError('O10: `comps` of to_dict not recognised')
-    src = comps_src[0]
-    graph_order = False
-    if isinstance(src, ast.ListComp) and unparse(src.generators[0].iter) in ('self._g.nodes', 'self._g', 'self._g.nodes()'):
-        graph_order = not src.generators[0].ifs
-    elif isinstance(src, ast.Call) and dotted(src.func) in ('list', 'tuple') and src.args \
-            and unparse(src.args[0]) in ('self._g.nodes', 'self._g', 'self._g.nodes()'):
-        graph_order = True
-    chk.instance(O10, f'to_dict: comps = {unparse(src)[:60]} (graph order: {graph_order})')
+    # what is written under 'compartments': followed back through order preserving wrappers (list / tuple / dict / enumerate
+    # / a comprehension without filter / a local) to the iterable it enumerates
+    from sa import reach as _reach
+    tcfg = CFG(td.node)
+    rdict = [(n, r.value) for n in tcfg.nodes.values() if n.kind == 'return' for r in [n.ast]
+             if isinstance(r.value, (ast.Dict, ast.Name))]
+    src = None
+    at = None
+    for n, v in rdict:
+        if isinstance(v, ast.Name):
+            vs = _reach.values(tcfg, n.id, v.id) or []
+            v = vs[0][1] if len(vs) == 1 else None
+        if isinstance(v, ast.Dict):
+            for k, val in zip(v.keys, v.values):
+                if isinstance(k, ast.Constant) and k.value == 'compartments':
+                    src, at = val, n.id
+    if src is None:
+        raise AnalysisError("O10: the value written under 'compartments' in to_dict not recognised")
+    NODES = ('self._g.nodes', 'self._g', 'self._g.nodes()')
+    org, flags = order_origin(tcfg, src, at)
+    graph_order = unparse(org) in NODES and not flags
+    chk.instance(O10, f"to_dict: 'compartments' = {unparse(src)[:60]} enumerates {unparse(org)[:40]} {sorted(flags)} "
+                      f'(graph order: {graph_order})')
     if not graph_order:
         chk.violation(O10, m.rel, td.qualname, f'comps = {unparse(src)[:80]}',
                       'the serialised compartment order is not the graph\'s insertion order; from_dict inserts in the '
@@ -642,6 +667,43 @@ def run_o9_o10(chk, repo):
                       line=src.lineno,
                       witness='parent CENTRAL with two eliminated metabolites, then add_dose(METAB1, ...): from_dict(to_dict(cs)) '
                               'picks another central compartment and is != cs')
+
+
+
+def order_origin(cfg, e, nid, depth=8, flags=None):
+    """the iterable whose order a sequence expression inherits, followed back through order preserving wrappers (list / tuple
+    / dict / enumerate / dict views / a comprehension without filter / a local) -> (expression, flags); flags name what
+    breaks the correspondence (filtered, sorted, reversed, set, unordered)"""
+    from sa import reach as _reach
+    flags = set() if flags is None else flags
+    while depth > 0:
+        depth -= 1
+        if isinstance(e, ast.Name):
+            vs = _reach.values(cfg, nid, e.id) or []
+            if len(vs) == 1:
+                nid, e = vs[0][0], vs[0][1]
+                continue
+            break
+        if isinstance(e, (ast.ListComp, ast.GeneratorExp, ast.DictComp, ast.SetComp)) and len(e.generators) == 1:
+            if e.generators[0].ifs:
+                flags.add('filtered')
+            if isinstance(e, ast.SetComp):
+                flags.add('unordered')
+            e = e.generators[0].iter
+            continue
+        if isinstance(e, ast.Call) and dotted(e.func) in ('list', 'tuple', 'iter', 'dict', 'enumerate') and len(e.args) >= 1:
+            e = e.args[0]
+            continue
+        if isinstance(e, ast.Call) and dotted(e.func) in ('sorted', 'reversed', 'set', 'frozenset') and e.args:
+            flags.add(dotted(e.func))
+            e = e.args[0]
+            continue
+        if isinstance(e, ast.Call) and isinstance(e.func, ast.Attribute) and e.func.attr in ('keys', 'values', 'items') \
+                and not e.args:
+            e = e.func.value
+            continue
+        break
+    return e, flags
 
 
 def run_o12_o13(chk, repo):
